@@ -271,7 +271,15 @@ impl UpdatePage {
 
             let mut arr = [0u8; UPDATE_ENTRY_SIZE];
             arr.copy_from_slice(entry_slice);
-            entries.push(UpdateEntry::from_bytes(&arr));
+            let entry = UpdateEntry::from_bytes(&arr);
+
+            // An entry whose guard does not match its bytes is a torn or
+            // corrupted append: the log ends here, exactly as at an empty slot.
+            if !entry.validate_hash_guard() {
+                break;
+            }
+
+            entries.push(entry);
             offset += UPDATE_ENTRY_SIZE;
         }
 
